@@ -449,6 +449,13 @@ func cmdCheck(args []string) int {
 	cpuprof := fs.String("cpuprofile", "", "write cpu profile")
 	tablesFlag := fs.Bool("tables", false, "check the generator tables (ground obligations)")
 	_ = fs.Parse(args)
+	if mp := os.Getenv("VCGO_MEMPROFILE"); mp != "" {
+		defer func() {
+			f, _ := os.Create(mp)
+			_ = pprof.Lookup("allocs").WriteTo(f, 0)
+			f.Close()
+		}()
+	}
 	if *cpuprof != "" {
 		f, _ := os.Create(*cpuprof)
 		_ = pprof.StartCPUProfile(f)
